@@ -37,7 +37,7 @@ structure Param (N V T : Type) where
   aliasFrom : List N := []           -- `Param(alias_from=[…])`
   ci        : Bool := false          -- `Param(case_insensitive=…)`, else `Options.case_insensitive` (field.py:751-754)
   pyDefault : Bool := false          -- the declaration reads `name = <expr>` (a `Param(...)` without default included)
-  deriving Repr
+  deriving Repr, DecidableEq
 
 /-- a signature: `pos` are the parameters before `*` (positional-only ones first — Python's own syntax),
 `vp` = `*name: ann`, `kos` the keyword-only ones, `vk` = `**name: ann` -/
